@@ -1,6 +1,63 @@
 """Sidecar contracts on the real gemseo functions, one module per property (DESIGN.md §4)."""
 
 PROPS = {
+    "C06": {
+        "level_text": "PARTIAL CORRECTNESS ONLY (contracts/c06_mda.py) - nothing is claimed about convergence itself (that a loop ever meets the criterion), about the "
+                      "agreement of different algorithms / settings, or about floating point. Proof on the real source, for any number of opaque deterministic "
+                      "disciplines, any data, any settings: IF MDAGaussSeidel / MDAJacobi / MDANewtonRaphson._execute returns, THEN with D the local data the last "
+                      "iteration started from: the returned local data are sweep(D) (+ the item 'MDA residuals norm'), the residual of every resolved name is "
+                      "value(sweep(D)) - value(D) (the value of the discipline's residual variable for a state variable), normed_residual is the scaled norm of the "
+                      "packed residuals with the reference stored in _scaling_data, and (normed_residual <= tolerance OR max_mda_iter <= iteration counter); hence "
+                      "IF the run ends because the tolerance criterion is met THEN scaled_norm(sweep(D) - D on the resolved variables) <= tolerance - i.e. what is "
+                      "guaranteed is that the RETURNED data were obtained by one sweep from data that differ from them by at most tolerance x reference in the "
+                      "norm of the scaling table (NOT that re-executing a discipline on the returned data changes them by less than the tolerance: that needs the "
+                      "contraction hypothesis, which is outside contracts). sweep = Gauss-Seidel fold (each discipline executed on the data updated by the "
+                      "previous ones, list order) resp. Jacobi fold (all on the same data; serial mode; also the sweep of the Newton-type MDAs), both verified "
+                      "with loop invariants. Loop invariant of the three loops (k >= 1): the local data are sweep(D) updated with unpack(T), T the output of the "
+                      "(abstract) sequence transformer fed with (pack(sweep(D)), residual vector) resp. (y(D) + Newton step, Newton step) for Newton-Raphson. "
+                      "_stop_criterion_is_reached / _warn_convergence_criteria: true iff the norm just computed <= tolerance or max_mda_iter <= counter. "
+                      "_compute_normalized_residual_norm: the scaling table, one verified variant per ResidualScaling member except INITIAL_SUBRESIDUAL_NORM "
+                      "(NO_SCALING ||R||; INITIAL_RESIDUAL_NORM ||R||/ref, ref = ||R_first|| or 1; N_COUPLING_VARIABLES ||R||/sqrt(size R_first); "
+                      "INITIAL_RESIDUAL_COMPONENT max|R/ref|, ref = R_first + (R_first == 0); SCALED_INITIAL_RESIDUAL_COMPONENT ||R/ref||/sqrt(size R)): the "
+                      "reference is fixed the first time the function runs with _scaling_data None and NEVER changes afterwards (also across executions), "
+                      "history / starting indices / counter / local-data item as coded; an unknown scaling value raises ValueError. _compute_residuals (nested "
+                      "loop invariants over the converter -> names-to-slices map). MDASequential._execute (no warm start): the MDAs run in order, each on the data "
+                      "RETURNED by the previous one, the local data end as the data returned by the last executed MDA, the chain stops after the first MDA whose "
+                      "normed residual is < (strict) the sequential MDA's tolerance.",
+        "level_note": "Trusted: pyvc, z3, pyvc/plug_c06.py. Abstractions: vectors are opaque arrays (numpy results = deterministic uninterpreted functions of the operands), "
+                      "norm an uninterpreted non-negative real, n ** 0.5 an uninterpreted sqrt (>= 0, zero iff n == 0), numpy-scalar division by zero an unspecified "
+                      "real (no exception), float division by zero ZeroDivisionError. ASSUMED (trusted contracts, listed in the evidence): the lazily computed "
+                      "names-to-slices maps (__compute_names_to_slices; names partitioned by converter), pack / unpack between vectors and data "
+                      "(get_current_resolved_*_vector, _update_local_data_from_array), IO.update_output_data (stores the items whose key is an output name), the "
+                      "sequence transformer (RelaxationAcceleration: free history constructor with observers; identity when no acceleration and relaxation "
+                      "factor 1), _prepare_warm_start (changes the local data only), MDANewtonRaphson.__compute_newton_step (= the step of "
+                      "JacobianAssembly.compute_newton_step verified in C07; the delegation itself is not verified), opaque disciplines (execute records its "
+                      "input data, get_output_data a deterministic function of them, execute does not modify its argument), opaque MDAs of a sequence, serial "
+                      "mode (n_processes == 1). The loops use the abstract summary of _compute_normalized_residual_norm (normed residual = f(scaling, scaling "
+                      "data after the call, residual vector)); the formulas are verified separately per scaling member. Native replays (observations, outside "
+                      "the claimed region): an MDA WITHOUT resolved variables behaves differently per scaling (default: converged at once; N_COUPLING_VARIABLES: "
+                      "nan, runs to max_mda_iter; SCALED_INITIAL_RESIDUAL_COMPONENT: ZeroDivisionError - stated by the variant's raises clause; "
+                      "INITIAL_RESIDUAL_COMPONENT: ValueError of max() on an empty array, not modelled); changing `scaling` after a first execution keeps the "
+                      "reference of the previous method (_scaling_data is never reset: ValueError or a silently wrong scaling) - excluded here by the typed "
+                      "representation invariant '_scaling_data is None or a reference of the current method'.",
+        "design_ref": "DESIGN.md §6 (was: not applicable; now partial correctness)",
+        "modules": ["contracts.c06_mda"],
+        "assumptions": ["disciplines are deterministic and do not modify the mapping they are executed on; get_output_data() is a function of the discipline and of the data it was last executed on",
+                        "serial mode (settings.n_processes == 1): _execute_disciplines / _linearize_disciplines are the sequential methods",
+                        "data converters: convert_data_to_array([name], data) depends on (converter, name, data[name]) only; the resolved names are keys of the data (KeyError not modelled)",
+                        "the names of the residual names-to-slices map are partitioned by converter (representation invariant, established by __compute_names_to_slices - assumed)",
+                        "_scaling_data is None or a reference of the type of the current scaling method (not changed between executions); a stored scalar reference of INITIAL_RESIDUAL_NORM is not zero (verified to be preserved)",
+                        "_current_iter == 0 when _execute starts (set by BaseMDA.execute)",
+                        "abstract sequence transformer, pack / unpack, warm start, Newton step, IO.update_output_data as described in level_note",
+                        "float64 arithmetic read as real arithmetic; nan / inf not modelled"],
+        "not_covered": ["CONVERGENCE: that any loop ever meets the tolerance criterion; agreement of the algorithms with each other / with the exact solution; independence of the solution from acceleration, relaxation, warm start, scaling, discipline order",
+                        "that re-executing a discipline on the returned data reproduces the returned outputs to within the tolerance (needs contractivity; the code guarantees the one-sweep-back statement above)",
+                        "ResidualScaling.INITIAL_SUBRESIDUAL_NORM (three loops over lists of (slice, norm) pairs)",
+                        "MDAQuasiNewton (nested functions, scipy.optimize.root), MDAGSNewton.__init__, MDAChain (C08/C09), parallel execution of the disciplines (C13)",
+                        "the sequence transformers themselves (relaxation / acceleration formulas), the vector <-> data conversions, __compute_names_to_slices, _set_resolved_variables, _check_coupling_types, _prepare_warm_start",
+                        "the delegation inside MDANewtonRaphson.__compute_newton_step (arguments handed to JacobianAssembly.compute_newton_step)",
+                        "residual_history of MDASequential (concatenation of the sub-histories), warm start of MDASequential"],
+    },
     "C18": {
         "level_text": "Proof (contracts/c18_surrogates.py, contracts/c18_transformers.py), for all real inputs and all sizes: (a) the seven RBF kernel derivative "
                       "functions used by RBFRegressor.predict_jacobian are the derivatives d/dx_i phi(|x|) = phi'(r) x_i / r of the kernels that "
@@ -19,7 +76,18 @@ PROPS = {
                       "SurrogateDiscipline._run returns exactly the (flattened) predictions of its regression model for the input data passed - same names, "
                       "nothing else, one call - and _compute_jacobian stores exactly the model's predict_jacobian of the discipline's current input data; "
                       "(e) MOERegressor with hard classification: row s of _predict_jacobian_hard is row s of the PUBLIC predict_jacobian of the local model the "
-                      "classifier selects for sample s, and _predict_all stacks the PUBLIC predictions of every local model.",
+                      "classifier selects for sample s, and _predict_all stacks the PUBLIC predictions of every local model; (f) the data formatters that wrap "
+                      "predict / predict_jacobian (contracts/c18_regressors.py; the wrappers nested in the DataFormatters decorators are verified with the "
+                      "decorated function abstract): BaseMLSupervisedAlgo._transform_data and _transform_data_from_variable_names (the result is the "
+                      "concatenation, IN THE ORDER OF THE VARIABLE NAMES, of the transformed block of every variable that has a transformer and of the "
+                      "untouched block of the others); SupervisedDataFormatters.format_transform: predict = inverse output transformation o raw function o "
+                      "input transformation (group-level, then variable-level); RegressionDataFormatters.transform_jacobian: predict_jacobian(x) = "
+                      "JI_out(raw(x')) @ (J_raw(x') @ J_in(x)), x' = f_in(x) - the chain rule with the verified transformer contracts, uninterpreted "
+                      "non-commutative matrix product, NotImplementedError exactly for variable-level transformers; BaseTransformer._use_2d_array.g (2-D "
+                      "data: f itself; 1-D data: first row / matrix of f on the one-row matrix); (g) per-sample predictions: PCERegressor._predict_jacobian "
+                      "row s = transposed gradient of the (abstract) OpenTURNS meta-model AT SAMPLE s (loop invariant over the samples), _predict row s = its "
+                      "value at sample s; LinearRegressor._predict_jacobian = the fitted coefficients for every sample, _predict = the scikit-learn "
+                      "prediction, and (lemma, by induction) the coefficient row is the exact derivative of the affine prediction.",
         "level_note": "Trusted: pyvc, z3 (nonlinear reals, floats read as reals), SciPy's kernel definitions, the element-wise numpy axioms of pyvc/plug_c18.py "
                       "(diag, x @ diag(c), tile, full, atleast_1d, where, column min/max/mean/std as uninterpreted functions with min <= entries <= max, std >= 0, "
                       "unique, nonzero, row gather / scatter). ASSUMED (abstract, listed per function in the evidence): the regression model of a surrogate "
@@ -27,9 +95,13 @@ PROPS = {
                       "the member transformers of a pipeline (uninterpreted maps; per-member losslessness is the hypothesis of the round-trip lemmas; the chain "
                       "rule of calculus is what makes the product the derivative), the local models and the classifier of a mixture of experts (sample-wise "
                       "uninterpreted public / raw prediction maps, labels in range). The decorator BaseTransformer._use_2d_array is dropped by extraction: "
-                      "the undecorated bodies are verified for 2-D data.",
+                      "the decorated bodies and the wrapper g are verified separately (f abstract in g). Also ASSUMED: split_array_to_dict_of_arrays (blocks of the "
+                      "variables by offset/size), the reduced input/output dimensions, the OpenTURNS meta-model (value / gradient = transposed Jacobian, "
+                      "sample-wise), the scikit-learn linear model (predict affine in coef_ / intercept_), the decorated function of a data formatter and "
+                      "BaseMLSupervisedAlgo._predict (deterministic, no side effect). pyvc additions: functions nested in methods are extracted by "
+                      "Class.method.inner[.inner] and their free variables bound by the contract's `closure`.",
         "design_ref": "DESIGN.md §4 C18",
-        "modules": ["contracts.c18_surrogates", "contracts.c18_transformers"],
+        "modules": ["contracts.c18_surrogates", "contracts.c18_transformers", "contracts.c18_regressors"],
         "assumptions": ["scipy.interpolate.Rbf kernels: multiquadric sqrt((r/eps)^2+1), inverse 1/sqrt((r/eps)^2+1), gaussian exp(-(r/eps)^2), linear r, cubic r^3, quintic r^5, thin_plate r^2 log r",
                         "array expressions of the der_* functions act component-wise (numpy broadcasting)",
                         "numpy (pyvc/plug_c18.py): diag(c)[j,k] = c[j] if j == k else 0; (x @ diag(c))[i,j] = x[i,j]*c[j]; tile(M,(n,1,1))[i,j,k] = M[j,k]; full / atleast_1d / where "
@@ -37,11 +109,16 @@ PROPS = {
                         "without rows; NaN/inf not modelled); unique = increasing distinct values; x/0 is an unspecified real (numpy gives inf/nan with a warning)",
                         "a fitted scaler has one coefficient and one offset per feature (established by the three _fit contracts when the initial sizes are 1 or n_features)",
                         "abstract regression model / IO / _init_jacobian / member transformers / local models / classifier as described in level_note",
-                        "local models of a mixture of experts predict sample-wise (rows of a prediction on X[idx] are the rows idx of the prediction on X)"],
-        "not_covered": ["BaseTransformer._use_2d_array (nested function g: the 1-D -> 2-D reshaping and the out[..., 0, :] un-reshaping are dropped by extraction)",
+                        "local models of a mixture of experts predict sample-wise (rows of a prediction on X[idx] are the rows idx of the prediction on X)",
+                        "OpenTURNS: f.gradient(x) is the (n_inputs, n_outputs) matrix of the partial derivatives at x; f(X) one row per sample; Point(v) = v",
+                        "scikit-learn LinearRegression: predict(X)[s,o] = intercept_[o] + sum_i coef_[o,i] X[s,i], one row per sample",
+                        "opaque numpy layer for the data formatters: concatenate / eye / shape / @ are deterministic uninterpreted functions of their operands",
+                        "the variables to transform of a supervised algorithm are keys of its `transformer` mapping, the group flags say whether 'inputs' / 'outputs' are keys (_post_init)"],
+        "not_covered": ["format_dict / format_samples / format_dict_jacobian wrappers (dict <-> array conversion, 1-D samples) and split_array_to_dict_of_arrays itself",
+                        "the learning-time transformation (_learn, __transform_data_from_names / _from_group) - hence that prediction and learning use the same column layout",
+                        "polyreg / gpr / rbf _predict and _predict_jacobian (axis bookkeeping), PCE special-variable Jacobians",
                         "BaseTransformer.fit / fit_transform, Pipeline._fit / duplicate, power transforms and dimension reductions (sklearn wrappers), JamesonSensor",
-                        "that predict_jacobian of a concrete regressor is the derivative of its predict (linear/polynomial/PCE/GP regressors, the transformer "
-                        "wrapping of BaseRegressor.DataFormatters), RBFRegressor._predict_jacobian (axis bookkeeping), interpolation of the learning data",
+                        "that the OpenTURNS gradient / scikit-learn coefficients are the derivatives of the library's own prediction (assumed), interpolation of the learning data",
                         "MOERegressor._predict (probability-weighted sum over clusters), soft classification, the relation d pred_k / dx = jac_k of the local models",
                         "the relation between the argument of SurrogateDiscipline._run (io.data, or get_input_data(with_namespaces=False)) and io.get_input_data() used by "
                         "_compute_jacobian: both are read by the model through its input names only (not verified)",
@@ -142,7 +219,7 @@ PROPS = {
                       "ASSUMED: DesignSpace.get_lower_bounds / get_upper_bounds return the cached bound arrays. Three defects found with these contracts were "
                       "repaired (known_findings.json `fixed`: 5c282a6, fde9871, 04a9b48). Not covered: discipline-level wrappers, float rounding.",
         "design_ref": "DESIGN.md §4 C16",
-        "modules": ["contracts.c16_derivatives", "contracts.c16_approx", "contracts.c16_complex", "contracts.c16_centered"],
+        "modules": ["contracts.c16_derivatives", "contracts.c16_approx", "contracts.c16_complex", "contracts.c16_centered", "contracts.c16_discipline"],
         "assumptions": ["CallableParallelExecution.execute: summary of its C13 contract (result:length, result:positional) for tasks that all succeed; extra **kwargs of the "
                         "differentiated function are not modelled (empty)",
                         "flattening comprehension: item t of sublist j at offsets(j) + t for the unique prefix-sum offsets of the sublist lengths",
@@ -223,7 +300,7 @@ PROPS = {
                       "fixed shapes [observables, new_iter_observables] and [constraints, observables, new_iter_observables] + `_objective`). "
                       "Not covered: sparse linear function at the _preprocess_function call site, sparse Jacobians at evaluation time, tolerance lookup.",
         "design_ref": "DESIGN.md §4 C01",
-        "modules": ["contracts.c01_c03_evaluation", "contracts.c01_preprocessing", "contracts.c02_more"],
+        "modules": ["contracts.c01_c03_evaluation", "contracts.c01_preprocessing", "contracts.c02_more", "contracts.c12_backup_clauses"],
         "assumptions": ["DesignSpace.get_lower_bounds()/get_upper_bounds() return the bound vectors, convert_dict_to_array(normalize) the per-component normalisation policies",
                         "ProblemFunction.__init__ stores its arguments (record model); it passes f_type=function.f_type",
                         "csr_matvec: the CSR matrix-vector product is a function of the contents of indptr/indices/data and of the vector (row sums not interpreted)",
@@ -284,7 +361,7 @@ PROPS = {
                       "increments the counter: max_iter=5 gives 32 (L-BFGS-B), 45 (SLSQP), 8 (NLOPT_COBYLA) objective calls.",
         "design_ref": "DESIGN.md §4 C03",
         "runtime": "contracts.rt_c03",
-        "modules": ["contracts.c01_c03_evaluation", "contracts.c03_driver"],
+        "modules": ["contracts.c01_c03_evaluation", "contracts.c03_driver", "contracts.c12_backup_clauses"],
         "assumptions": [
             "run summary (_RunPhase) of every _pre_run/_run override: evaluations go through ProblemFunction; the database's listener lists, the driver's own listener set and "
             "its settings fields are kept; only TerminationCriterion subclasses (or ValueError from _pre_run validation) are raised",
@@ -314,7 +391,7 @@ PROPS = {
                       "(cache_outputs, cache_jacobian, __getitem__ exact and with tolerance, last_entry, clear, __len__ and their helpers) refines a finite "
                       "map from input content to (outputs?, Jacobian?) under a representation invariant of the hash buckets, with hash_data an uninterpreted "
                       "(colliding) function of the content, relative to the specification of the four abstract storage methods; (3) MemoryFullCache's "
-                      "storage methods satisfy that specification (behavioural subtyping) - except the freshness clause, see known defects; (4) "
+                      "storage methods satisfy that specification (behavioural subtyping), freshness of the stored arrays included (repaired: e3d0f65); (4) "
                       "BaseDiscipline.execute with the default SimpleCache runs the body iff the lookup returned no outputs, returns the inputs merged "
                       "with the cached outputs on a hit and stores (pristine prepared inputs, produced outputs) on a miss; (5) HDF5Cache is a behavioural subtype "
                       "of the same storage specification (contracts/c05_more.py): _initialize_entry (inherited), _has_group, _read_data, _write_data satisfy the four "
@@ -355,8 +432,9 @@ PROPS = {
             "(another object or process writing the same node breaks the coupling invariant); data handed to the cache are numeric or str arrays and numeric dense or sparse Jacobians "
             "(no bytes array, no sparse str array); at the cache level the content of a sparse array IS the matrix it denotes (a CSC/COO Jacobian is read back as the CSR array of the same "
             "matrix); h5 paths and str(int) are injective; int(array([h], dtype='bytes')[0]) == h; exists(path) false implies no node; `del file[node]` removes the node with its entries",
-            "HDF5FileSingleton.__open / keep_open / __close (the file-handle protocol) are not verified: `with self.__open()` gives access to the persistent content; inside keep_open a "
-            "file operation leaves the handle open (assumed clause `file-handle` of HDF5Cache._read_data), which is what exposes the AssertionError of get_all_entries on an empty cache",
+            "HDF5FileSingleton.__open is not verified: `with self.__open()` gives access to the persistent content, and inside keep_open a file operation leaves the handle open, outside it "
+            "closed (assumed clause `file-handle` of HDF5Cache._read_data); keep_open itself IS verified on the real source for an arbitrary state of the handle (no handle left open, no "
+            "exception; __close assumed, its assert being its precondition) and summarised by that contract inside HDF5Cache.get_all_entries",
             "BaseFullCache._all_groups (sorted(chain(*tolist()))) is assumed to be [1..max_index] under the representation invariant",
             "Discipline.jac is a nested dict of array addresses; SimpleCache stores it as is and its contracts see it as the flat dict of blocks keyed by an injective "
             "jac_pair_key(output, input) (plugin conversion pyvc/plug_c05lin.py; 'no empty row' is a proved obligation where a Jacobian is handed to the cache, assumed on what the cache returns)",
@@ -398,7 +476,8 @@ PROPS = {
                       "MDOParallelChain._execute leaves in io.data the update, in list order, with the outputs of every discipline executed on the chain's data (later discipline wins) OUTSIDE the known "
                       "finding (a failed discipline / a single discipline with processes: stale data or KeyError). The parallel branch of BaseDOELibrary._run and the other derivative approximators are not under contract.",
         "design_ref": "DESIGN.md §4 C13",
-        "modules": ["contracts.c13_parallel", "contracts.c16_approx", "contracts.c16_complex", "contracts.c05_full_cache", "contracts.c13_disciplines"],
+        "runtime": "contracts.rt_c13",
+        "modules": ["contracts.c13_parallel", "contracts.c16_approx", "contracts.c16_complex", "contracts.c16_discipline", "contracts.c05_full_cache", "contracts.c13_disciplines"],
         "assumptions": [
             "queue contract: every item put in a queue is delivered exactly once, to exactly one getter, in an arbitrary order; every started worker runs "
             "_execute_workers to completion (fairness/termination of the scheduler)",
@@ -639,8 +718,12 @@ PROPS = {
                       "sum_k R[:,k] inv_k with f evaluated at the merged point (reference values on the approximated inputs); _jac_to_wrap = Df at that same "
                       "merged point on the exact-input columns and D[:,k] - R[:,k] inv_k^2 on the approximated ones (entry-wise derivative of the evaluated "
                       "expression). compute_linear_approximation: coefficients Df(x0), offset f(x0) - Df(x0) x0 (TaylorLemmas: = f(x0) + Df(x0)(x - x0)); "
-                      "MDOLinearFunction.__neg__ / offset: (-A, -b) / (A, b + c) in a new function. Known finding: ConvexLinearApprox._jac_to_wrap writes "
-                      "into the array returned by the operand's Jacobian (see known_findings.json).",
+                      "MDOLinearFunction.__neg__ / offset: (-A, -b) / (A, b + c) in a new function; restrict: the columns of the inputs that are not frozen (increasing, "
+                      "complete enumeration) and the offset b + sum_k A[:, F_k] v_k; compute_linear_approximation also for a number-valued f (one row = the gradient); "
+                      "MDOFunction.__neg__: the new function evaluates with the operand's _min_pt / _min_jac (verified above) and keeps type, declared dimension and "
+                      "output names. ConvexLinearApprox._jac_to_wrap wrote into the array returned by the operand's Jacobian: repaired (81c6c57), now proved for "
+                      "every mask. FunctionRestriction._func_to_wrap/_jac_to_wrap: f / Df are evaluated at the point that holds the given values on the active inputs "
+                      "and the frozen values on the frozen ones; the Jacobian is the active columns of Df there.",
         "level_note": "Trusted: pyvc, the numpy model (npmodel.py + plug_np_c10.py: ufunc functions, atleast_2d, tile, axis sums, max/argmax, heaviside, matrix-vector "
                       "product, in-place `a op= b` on array names), reals for floats (the shift by the maximum in KS/IKS only matters in floating point), exp/log "
                       "uninterpreted (positivity of exp only). Operand functions are deterministic and are called at the given point only. Not covered: the "
@@ -662,10 +745,13 @@ PROPS = {
             "lemma instances offered to the solver: congruence and positivity of prefix sums, proved by induction in PrefixSumLemmas",
         ],
         "not_covered": ["_OperationFunctionMaker.__init__ and MDOFunction.__add__/__sub__/__mul__/__truediv__/__neg__/offset (construction of the result object, names/expr/special_repr)",
-                        "MDOLinearFunction.restrict, __add__/__sub__ (inherited algebra on the result object); names / expression strings of the functions built by __neg__/offset/"
-                        "compute_linear_approximation (assumed string glue); sparse coefficient matrices outside normalize; number-valued f in compute_linear_approximation",
-                        "mdo_quadratic_function.py, compute_quadratic_approximation, function_restriction.py, linear_composite_function.py, concatenate.py, NormFunction/NormDBFunction, "
-                        "SetPtFromDatabase, MDOFunction.offset/__neg__/concatenate/restrict/linear_approximation wrappers; ConvexLinearApprox with approx_indexes=None "
+                        "MDOFunction.__add__/__sub__/__mul__/__truediv__/offset (also inherited by MDOLinearFunction): the construction of the result object by "
+                        "_OperationFunctionMaker.__init__ (flags, dim, names) is not under contract - only the callables it installs are; names / expression strings of the "
+                        "functions built by __neg__/offset/restrict/compute_linear_approximation (assumed string glue: pretty_str, _generate_*_expr, generate_input_names); "
+                        "sparse coefficient matrices outside normalize; restrict with negative or repeated frozen indexes (excluded by precondition, see report)",
+                        "mdo_quadratic_function.py, compute_quadratic_approximation, FunctionRestriction.__init__ (its _func_to_wrap/_jac_to_wrap are verified relative to the "
+                        "index invariant it establishes), linear_composite_function.py, concatenate.py, NormFunction/NormDBFunction, "
+                        "SetPtFromDatabase, MDOFunction.concatenate/restrict/linear_approximation wrappers; ConvexLinearApprox with approx_indexes=None "
                         "(all inputs: ones_like(dtype=bool) not modelled) and the super().__init__ naming",
                         "mixed operands (vector-valued with number-valued function), vector `scale` in the aggregations, aggregation_func.py wrappers and ConstraintAggregation discipline",
                         "bound side of KS/IKS (KS_lower <= max <= KS_upper): not proved (lemmas `dominates` on prefix sums are available, exp/log monotonicity axioms not introduced)",
@@ -707,7 +793,7 @@ PROPS["C11"] = {
                   "tools/validate_h5py_model.py), sorted() as a deterministic duplicate-free listing, float64 = reals, ASCII output names. "
                   "The property is claimed at the level of the writer primitives only; DesignSpace / OptimizationProblem / HDF5Cache files are not under contract.",
     "design_ref": "DESIGN.md §4 C11",
-    "modules": ["contracts.c11_hdf_database", "contracts.c11_hdf5_cache_file", "contracts.c11_design_space_files", "contracts.c11_design_space_hdf"],
+    "modules": ["contracts.c11_hdf_database", "contracts.c11_hdf5_cache_file", "contracts.c11_design_space_files", "contracts.c11_design_space_hdf", "contracts.c12_backup_clauses"],
     "runtime": "contracts.rt_c11",
     "assumptions": [
         "abstract HDF node (pyvc/plug_hdf.py): A1 File modes w/a/r and persistence of what was written; A2 require_group; A3 `in`/len of a group; A4 create_dataset "
@@ -722,6 +808,13 @@ PROPS["C11"] = {
         "ASSUMED explicitly (axiom of add_pending_array): hash(HashableNdarray) is collision free on the arrays of one history - the pending buffer is keyed by "
         "hash(array); with a collision the earlier pending array is silently replaced and never exported (counter-model exists, not replayable with xxh3-64)",
         "cited lemma (finite sets, assumed): the names of a finite map not in a duplicate-free list of some of its names are |map| - |list| many",
+        "design-space group of an HDF node (contracts/c11_design_space_hdf.py; model: pyvc/plug_hdf.py part 'design-space group', ghosts h5ds_*, opt-in c11_hdf): "
+        "DesignSpace.to_hdf (variant @hdf) and from_hdf are verified - names dataset in variable order, per variable size / bounds / type and a value dataset EXACTLY "
+        "when that variable has a current value; the reader restores each listed name through add_variable@c11 with the stored arguments (value None iff no value "
+        "dataset) - with the round-trip lemmas DesignSpaceHdfRoundTrip (same names in order, sizes, types, bounds, per-variable current values incl. absent ones). "
+        "Assumed: h5py A17 (dataset[()], group.get), numpy: element 0 of array([t] * n, dtype='bytes') decodes to t for n >= 1, __to_real identity on real data, "
+        "no variable is called 'names' / has an empty name; inside HDFDatabase.to_file the call input_space.to_hdf keeps its assumed summary (only writes the design_space group); "
+        "scipy S5 (validated natively): csr_array((data, indices, indptr)) WITHOUT shape infers (len(indptr) - 1, max(indices) + 1) and raises ValueError for empty indices",
         "HDF5 cache file (contracts/c11_hdf5_cache_file.py, also served to C05): HDF5FileSingleton.write_data / read_data / _has_group / __write_sparse_array / "
         "__read_sparse_array are verified over the abstract cache file (entries -> hash + entry groups -> datasets with attributes; h5py A4/A16) with SciPy sparse "
         "arrays modelled as (format tag, data, indices, indptr, shape): ASSUMED scipy contract S1 tocsr() is a CSR array denoting the same matrix, S2 a CSR array "
@@ -786,7 +879,7 @@ PROPS["C17"] = {
                   "Not covered: 'optimising any of them reaches the same optimum' (optimiser behaviour), total derivatives through the MDA (C07/C09), BiLevel.",
     "design_ref": "DESIGN.md §4 C17",
     "runtime": "contracts.rt_c17",
-    "modules": ["contracts.c17_formulations", "contracts.c17_idf_norm", "contracts.c17_mdf", "contracts.c17_build"],
+    "modules": ["contracts.c17_formulations", "contracts.c17_idf_norm", "contracts.c17_mdf", "contracts.c17_build", "contracts.c17_consistency"],
     "assumptions": [
         "facts about the recursive offset functions off/offm and the prefix sum psum_i used as axioms in the function contracts (off-monotone, offm-monotone, "
         "psum-bridge, consumed-is-offset) are proved by induction (base + step obligations) in the lemma contract OffsetLemmas",
@@ -897,11 +990,18 @@ PROPS["C14"] = {
                     "error paths: the state of the design space when compute_doe / _pre_run raise (see the observation in level_note)"],
 }
 
+PROPS["C19"] = {
+    "level_text": "PROVISIONAL (being written)",
+    "level_note": "",
+    "design_ref": "DESIGN.md §4 C19",
+    "modules": ["contracts.c19_uncertainty"],
+    "assumptions": [],
+    "not_covered": [],
+}
+
 _TODO = "not yet under contract in this build; see DESIGN.md §9 (build order) - no other technique is substituted"
 NOT_APPLICABLE = {
-    "C06": "convergence of floating-point fixed-point/Newton iterations is a liveness/real-analysis property; function contracts can only state the loop exit condition, which does not decide it (DESIGN.md §6)",
     "C12": "quantifies over process-death points and on-disk HDF5 state, which function contracts cannot express; the contract-expressible restart clauses are obligations of C01/C03 (DESIGN.md §6)",
-    "C19": "values of SciPy/OpenTURNS distribution functions in floating point; no gemseo logic to put under contract and no SMT theory for the special functions (DESIGN.md §6)",
 }
 for _p in ["C%02d" % i for i in range(1, 21)]:
     if _p not in PROPS and _p not in NOT_APPLICABLE:
